@@ -112,7 +112,9 @@ func (d *StreamingBlockDecoder) DecodeWithOffsets() (*BlockTransactionOffsets, e
 	}
 
 	// Shelley+ block layout: [header, tx_bodies[], witnesses[], metadata_map, invalid_txs[]]
-	arrayHeaderSize := cborArrayHeaderSize(len(blockArray))
+	// Use the size of the header that is actually present: the array length
+	// may be encoded non-minimally or as an indefinite-length array
+	_, arrayHeaderSize, _ := cborArrayInfo(d.data[blockStart:])
 
 	// Track positions as we walk through the block
 	// #nosec G115 -- Cardano block components are well under 4GiB
@@ -177,7 +179,7 @@ func (d *StreamingBlockDecoder) DecodeWithOffsets() (*BlockTransactionOffsets, e
 	d.offsets.Transactions = make([]TransactionLocation, len(txBodiesRaw))
 
 	// Calculate individual transaction body offsets
-	bodiesArrayHeader := uint32(cborArrayHeaderSize(len(txBodiesRaw)))
+	_, bodiesArrayHeader, _ := cborArrayInfo(blockArray[1])
 	bodyPos := txBodiesOffset + bodiesArrayHeader
 
 	for i, rawBody := range txBodiesRaw {
@@ -195,7 +197,7 @@ func (d *StreamingBlockDecoder) DecodeWithOffsets() (*BlockTransactionOffsets, e
 	}
 
 	// Calculate individual witness set offsets
-	witnessArrayHeader := uint32(cborArrayHeaderSize(len(witnessesRaw)))
+	_, witnessArrayHeader, _ := cborArrayInfo(blockArray[2])
 	witnessPos := witnessesOffset + witnessArrayHeader
 
 	for i, rawWitness := range witnessesRaw {
